@@ -231,46 +231,58 @@ Proof.
 Qed.
 
 (* ---- scan_name ------------------------------------------------------------------------------------ *)
-(* the stop condition of the three name loops, on the byte c and the byte c1 after it *)
-Definition name_stop (eq : bool) (c c1 : Z) : bool :=
-  (c =? 32) || (eq && (c =? 61)) || (c =? 62) || (((c =? 47) || (c =? 63)) && (c1 =? 62))
-  || (c =? 9) || (c =? 10) || (c =? 13) || (c =? 0).
+(* l.atTagEnd on the byte c and the byte c1 after it *)
+Definition tag_end_b (pi : bool) (c c1 : Z) : bool :=
+  if pi then (c =? 63) && (c1 =? 62)
+  else (c =? 62) || (((c =? 47) || (c =? 63)) && (c1 =? 62)).
 
-Lemma name_stop_false_nz eq c c1 : name_stop eq c c1 = false -> c <> 0.
+(* the stop condition of the three name loops, on the byte c and the byte c1 after it *)
+Definition name_stop (pi eq : bool) (c c1 : Z) : bool :=
+  (c =? 32) || (eq && (c =? 61)) || tag_end_b pi c c1 || (c =? 9) || (c =? 10) || (c =? 13) || (c =? 0).
+
+Lemma name_stop_false_nz pi eq c c1 : name_stop pi eq c c1 = false -> c <> 0.
 Proof. unfold name_stop. intros H ->. rewrite !orb_false_iff in H. cbn in H. intuition discriminate. Qed.
 
-Lemma closer_ahead_spec c t b : closer_ahead c t = Some b ->
-  b = ((c =? 47) || (c =? 63)) && (getz t 0 =? 62).
+Lemma tag_end_spec pi c t b : tag_end pi c t = Some b -> b = tag_end_b pi c (getz t 0).
 Proof.
-  unfold closer_ahead. destruct ((c =? 47) || (c =? 63)).
-  - destruct t as [|c1 t']; [discriminate|]. intros H. injection H as <-. reflexivity.
-  - intros H. injection H as <-. reflexivity.
+  unfold tag_end, tag_end_b. destruct pi.
+  - destruct (c =? 63); [|intros H; injection H as <-; reflexivity].
+    destruct t as [|c1 t']; [discriminate|]. intros H. injection H as <-. reflexivity.
+  - destruct (c =? 62); [intros H; injection H as <-; reflexivity|].
+    destruct ((c =? 47) || (c =? 63)); [|intros H; injection H as <-; reflexivity].
+    destruct t as [|c1 t']; [discriminate|]. intros H. injection H as <-. reflexivity.
 Qed.
 
-Lemma scan_name_step eq c t :
-  scan_name eq (c :: t) =
-  (ca <- closer_ahead c t ;;
-   if (c =? 32) || (eq && (c =? 61)) || (c =? 62) || ca || (c =? 9) || (c =? 10) || (c =? 13) || (c =? 0)
-   then Some 0 else n <- scan_name eq t ;; Some (1 + n)).
+Lemma tag_end_total pi c t : t <> [] -> exists b, tag_end pi c t = Some b.
+Proof.
+  intros Ht. destruct t as [|c1 t']; [congruence|]. unfold tag_end.
+  destruct pi; [destruct (c =? 63); eauto|]. destruct (c =? 62); [eauto|]. destruct ((c =? 47) || (c =? 63)); eauto.
+Qed.
+
+Lemma scan_name_step pi eq c t :
+  scan_name pi eq (c :: t) =
+  (te <- tag_end pi c t ;;
+   if (c =? 32) || (eq && (c =? 61)) || te || (c =? 9) || (c =? 10) || (c =? 13) || (c =? 0)
+   then Some 0 else n <- scan_name pi eq t ;; Some (1 + n)).
 Proof. reflexivity. Qed.
 
-Lemma scan_name_spec eq l n : scan_name eq l = Some n ->
+Lemma scan_name_spec pi eq l n : scan_name pi eq l = Some n ->
   0 <= n < len l /\
-  (forall i, 0 <= i < n -> name_stop eq (getz l i) (getz l (i + 1)) = false) /\
-  name_stop eq (getz l n) (getz l (n + 1)) = true.
+  (forall i, 0 <= i < n -> name_stop pi eq (getz l i) (getz l (i + 1)) = false) /\
+  name_stop pi eq (getz l n) (getz l (n + 1)) = true.
 Proof.
   revert n. induction l as [|c t IH]; intros n H; [discriminate|].
   rewrite scan_name_step in H. rewrite len_cons. pose proof (len_nonneg t).
-  destruct (closer_ahead c t) as [ca|] eqn:Hca; [|discriminate]. cbn [option_bind] in H.
-  apply closer_ahead_spec in Hca.
-  assert (Hst : name_stop eq c (getz t 0) =
-                ((c =? 32) || (eq && (c =? 61)) || (c =? 62) || ca || (c =? 9) || (c =? 10) || (c =? 13) || (c =? 0)))
-    by (unfold name_stop; rewrite Hca; reflexivity).
+  destruct (tag_end pi c t) as [te|] eqn:Hte; [|discriminate]. cbn [option_bind] in H.
+  apply tag_end_spec in Hte.
+  assert (Hst : name_stop pi eq c (getz t 0) =
+                ((c =? 32) || (eq && (c =? 61)) || te || (c =? 9) || (c =? 10) || (c =? 13) || (c =? 0)))
+    by (unfold name_stop; rewrite Hte; reflexivity).
   rewrite <- Hst in H.
-  destruct (name_stop eq c (getz t 0)) eqn:Hs.
+  destruct (name_stop pi eq c (getz t 0)) eqn:Hs.
   - assert (n = 0) by congruence. subst n. split; [lia|]. split; [intros; lia|].
     rewrite getz_cons_0. replace (0 + 1) with (1 + 0) by lia. rewrite getz_cons_succ by lia. exact Hs.
-  - destruct (scan_name eq t) as [m|] eqn:Hm; [|discriminate]. cbn [option_bind] in H.
+  - destruct (scan_name pi eq t) as [m|] eqn:Hm; [|discriminate]. cbn [option_bind] in H.
     assert (n = 1 + m) by congruence. subst n. destruct (IH m eq_refl) as (H1 & H2 & H3).
     split; [lia|]. split.
     + intros i Hi. destruct (Z.eq_dec i 0) as [->|].
@@ -281,29 +293,95 @@ Proof.
       rewrite getz_cons_succ by lia. exact H3.
 Qed.
 
-Lemma scan_name_total eq a : exists n, scan_name eq (a ++ [0]) = Some n.
+Lemma scan_name_total pi eq a : exists n, scan_name pi eq (a ++ [0]) = Some n.
 Proof.
   induction a as [|c a (n & IH)]; cbn [app]; rewrite scan_name_step.
-  - cbn. rewrite !orb_true_r. eauto.
-  - assert (exists ca, closer_ahead c (a ++ [0]) = Some ca) as (ca & Hca).
-    { unfold closer_ahead. destruct ((c =? 47) || (c =? 63)); [|eauto].
-      destruct a; cbn [app]; eauto. }
-    rewrite Hca. cbn [option_bind]. rewrite IH. cbn [option_bind].
-    destruct ((c =? 32) || (eq && (c =? 61)) || (c =? 62) || ca || (c =? 9) || (c =? 10) || (c =? 13) || (c =? 0)); eauto.
+  - unfold tag_end. change (0 =? 63) with false. change (0 =? 62) with false. change (0 =? 47) with false.
+    cbn [orb]. destruct pi; cbn [option_bind]; change (0 =? 0) with true; rewrite !orb_true_r; eauto.
+  - destruct (tag_end_total pi c (a ++ [0])) as (te & Hte); [destruct a; discriminate|].
+    rewrite Hte. cbn [option_bind]. rewrite IH. cbn [option_bind].
+    destruct ((c =? 32) || (eq && (c =? 61)) || te || (c =? 9) || (c =? 10) || (c =? 13) || (c =? 0)); eauto.
 Qed.
 
-Lemma scan_name_lx eq z : lx_wf z ->
-  exists n, scan_name eq (suffix z) = Some n /\ 0 <= n /\ lpos z + n <= lx_len z /\
-    (forall i, lpos z <= i < lpos z + n -> name_stop eq (getz (lbuf z) i) (getz (lbuf z) (i + 1)) = false) /\
-    name_stop eq (getz (lbuf z) (lpos z + n)) (getz (lbuf z) (lpos z + n + 1)) = true.
+Lemma scan_name_lx pi eq z : lx_wf z ->
+  exists n, scan_name pi eq (suffix z) = Some n /\ 0 <= n /\ lpos z + n <= lx_len z /\
+    (forall i, lpos z <= i < lpos z + n -> name_stop pi eq (getz (lbuf z) i) (getz (lbuf z) (i + 1)) = false) /\
+    name_stop pi eq (getz (lbuf z) (lpos z + n)) (getz (lbuf z) (lpos z + n + 1)) = true.
 Proof.
   intros H. destruct (wf_suffix z H) as (a & Ha & Hl). pose proof (wf_range z H) as Hr.
-  destruct (scan_name_total eq a) as (n & Hn). rewrite <- Ha in Hn. exists n. split; [exact Hn|].
-  destruct (scan_name_spec _ _ _ Hn) as (H1 & H2 & H3). rewrite len_suffix in H1 by assumption.
+  destruct (scan_name_total pi eq a) as (n & Hn). rewrite <- Ha in Hn. exists n. split; [exact Hn|].
+  destruct (scan_name_spec _ _ _ _ Hn) as (H1 & H2 & H3). rewrite len_suffix in H1 by assumption.
   split; [lia|]. split; [lia|]. split.
   - intros i Hi. specialize (H2 (i - lpos z)). rewrite !getz_suffix in H2 by lia.
     replace (lpos z + (i - lpos z)) with i in H2 by lia.
     replace (lpos z + (i - lpos z + 1)) with (i + 1) in H2 by lia. apply H2. lia.
+  - rewrite !getz_suffix in H3 by lia. replace (lpos z + (n + 1)) with (lpos z + n + 1) in H3 by lia. exact H3.
+Qed.
+
+(* ---- scan_quoted ---------------------------------------------------------------------------------- *)
+Lemma scan_quoted_step pi delim c t :
+  scan_quoted pi delim (c :: t) =
+  (if c =? delim then Some 0
+   else te <- (if pi then tag_end true c t else Some false) ;;
+        if (c =? 0) || te then Some 0 else n <- scan_quoted pi delim t ;; Some (1 + n)).
+Proof. reflexivity. Qed.
+
+(* the byte the quoted-value loop stops at: the quote, NUL, or (in a processing instruction) the '?' of "?>" *)
+Definition quoted_stop (pi : bool) (delim c c1 : Z) : bool :=
+  (c =? delim) || (c =? 0) || (pi && (c =? 63) && (c1 =? 62)).
+
+Lemma scan_quoted_spec pi delim l n : scan_quoted pi delim l = Some n ->
+  0 <= n < len l /\
+  (forall i, 0 <= i < n -> quoted_stop pi delim (getz l i) (getz l (i + 1)) = false) /\
+  quoted_stop pi delim (getz l n) (getz l (n + 1)) = true.
+Proof.
+  revert n. induction l as [|c t IH]; intros n H; [discriminate|].
+  rewrite scan_quoted_step in H. rewrite len_cons. pose proof (len_nonneg t).
+  assert (G0 : getz (c :: t) (0 + 1) = getz t 0) by (replace (0 + 1) with (1 + 0) by lia; apply getz_cons_succ; lia).
+  destruct (Z.eqb_spec c delim) as [E|E].
+  { assert (n = 0) by congruence. subst n. split; [lia|]. split; [intros; lia|].
+    rewrite getz_cons_0. unfold quoted_stop. subst c. rewrite Z.eqb_refl. reflexivity. }
+  destruct (if pi then tag_end true c t else Some false) as [te|] eqn:Hte; [|discriminate]. cbn [option_bind] in H.
+  assert (Ete : te = pi && (c =? 63) && (getz t 0 =? 62)).
+  { destruct pi; [|injection Hte as <-; reflexivity]. apply tag_end_spec in Hte. rewrite Hte. reflexivity. }
+  assert (Hst : quoted_stop pi delim c (getz t 0) = ((c =? 0) || te)).
+  { unfold quoted_stop. rewrite Ete. destruct (Z.eqb_spec c delim); [congruence|]. cbn [orb]. reflexivity. }
+  rewrite <- Hst in H. destruct (quoted_stop pi delim c (getz t 0)) eqn:Hs.
+  - assert (n = 0) by congruence. subst n. split; [lia|]. split; [intros; lia|]. rewrite getz_cons_0, G0. exact Hs.
+  - destruct (scan_quoted pi delim t) as [m|] eqn:Hm; [|discriminate]. cbn [option_bind] in H.
+    assert (n = 1 + m) by congruence. subst n. destruct (IH m eq_refl) as (H1 & H2 & H3).
+    split; [lia|]. split.
+    + intros i Hi. destruct (Z.eq_dec i 0) as [->|]; [rewrite getz_cons_0, G0; exact Hs|].
+      rewrite (getz_cons_pos c t i) by lia. rewrite (getz_cons_pos c t (i + 1)) by lia.
+      replace (i + 1 - 1) with (i - 1 + 1) by lia. apply H2. lia.
+    + rewrite getz_cons_succ by lia. replace (1 + m + 1) with (1 + (m + 1)) by lia.
+      rewrite getz_cons_succ by lia. exact H3.
+Qed.
+
+Lemma scan_quoted_total pi delim a : exists n, scan_quoted pi delim (a ++ [0]) = Some n.
+Proof.
+  induction a as [|c a (n & IH)]; cbn [app]; rewrite scan_quoted_step.
+  - destruct (0 =? delim); [eauto|]. destruct pi; cbn; eauto.
+  - destruct (c =? delim); [eauto|].
+    assert (exists te, (if pi then tag_end true c (a ++ [0]) else Some false) = Some te) as (te & ->).
+    { destruct pi; [|eauto]. apply tag_end_total. destruct a; discriminate. }
+    cbn [option_bind]. rewrite IH. cbn [option_bind]. destruct ((c =? 0) || te); eauto.
+Qed.
+
+Lemma quoted_stop_false_nz pi delim c c1 : quoted_stop pi delim c c1 = false -> c <> 0.
+Proof. unfold quoted_stop. intros H ->. rewrite orb_true_r in H. discriminate. Qed.
+
+Lemma scan_quoted_lx pi delim z : lx_wf z ->
+  exists n, scan_quoted pi delim (suffix z) = Some n /\ 0 <= n /\ lpos z + n <= lx_len z /\
+    (forall i, lpos z <= i < lpos z + n -> getz (lbuf z) i <> 0) /\
+    quoted_stop pi delim (getz (lbuf z) (lpos z + n)) (getz (lbuf z) (lpos z + n + 1)) = true.
+Proof.
+  intros H. destruct (wf_suffix z H) as (a & Ha & Hl). pose proof (wf_range z H) as Hr.
+  destruct (scan_quoted_total pi delim a) as (n & Hn). rewrite <- Ha in Hn. exists n. split; [exact Hn|].
+  destruct (scan_quoted_spec _ _ _ _ Hn) as (H1 & H2 & H3). rewrite len_suffix in H1 by assumption.
+  split; [lia|]. split; [lia|]. split.
+  - intros i Hi. specialize (H2 (i - lpos z) ltac:(lia)). apply quoted_stop_false_nz in H2.
+    rewrite getz_suffix in H2 by lia. replace (lpos z + (i - lpos z)) with i in H2 by lia. exact H2.
   - rewrite !getz_suffix in H3 by lia. replace (lpos z + (n + 1)) with (lpos z + n + 1) in H3 by lia. exact H3.
 Qed.
 
